@@ -102,6 +102,12 @@ func (g *c02gen) one(s *jen.Statement, depth int) {
 		for i, n := 0, g.r.Intn(4); i < n; i++ {
 			d[g.stmt(depth-1)] = g.stmt(depth - 1)
 		}
+		if g.r.Intn(6) == 0 {
+			d[g.stmt(depth-1)] = nil // a nil value (and, below, a nil key): the pair renders nothing
+		}
+		if g.r.Intn(12) == 0 {
+			d[nil] = g.stmt(depth - 1)
+		}
 		s.Values(d)
 		g.stats["Values(Dict)"]++
 		return
